@@ -268,6 +268,8 @@ def measure_cases(ctx, quick):
             phi.canonize_(to='first')
         if form in ('last', 'first-last'):
             phi.canonize_(to='last')
+        if rng.random() < 0.5:
+            phi = rng.choice([2.5, -0.5, 2j]) * phi        # the separate prefactor is part of the state
         w = mgen.dense_state(phi, ops).reshape(-1)
         nw = np.vdot(w, w).real
         if nw > 1e-12 and fam in ('Spin12', 'SpinlessFermions'):
